@@ -22,7 +22,7 @@ RULE = ("hypothesis-generated values (derandomised from the seed) from the lossl
         "x level; non-trivial = not a bare scalar None/bool")
 ASSUMPTIONS = ["ints bounded by CPython's int<->str digit limit", "datetimes: naive, whole milliseconds, TZ=UTC",
                "values a serializer refuses are only required to be refused on every path alike"]
-REQUIRED_REACH = ["codec_core_ok", "codec_ext_ok", "wire_ok", "wire_batch_ok", "wire_stream_ok", "wire_compressed_request", "wire_compressed_reply"]
+REQUIRED_REACH = ["codec_core_ok", "codec_ext_ok", "wire_ok", "wire_batch_ok", "wire_stream_ok", "wire_compressed_request", "wire_compressed_reply", "wire_with_annotations", "codec_memoryview_same"]
 SHARD_TIMEOUT = {"quick": 220, "thorough": 2400}
 RAISED = object()
 
@@ -68,11 +68,25 @@ def codec_paths(ser, x):
     return A, K, A2, R
 
 
+def codec_paths_memoryview(ser, x):
+    """the same decoders fed a memoryview: that is what the protocol layer hands them when a message carries annotations"""
+    A = outcome(lambda: ser.loadsCall(memoryview(bytes(ser.dumpsCall("obj", "meth", (x,), {}))))[2][0])
+    K = outcome(lambda: ser.loadsCall(memoryview(bytes(ser.dumpsCall("obj", "meth", (), {"kw": x}))))[3]["kw"])
+    R = outcome(lambda: ser.loads(memoryview(bytes(ser.dumps(x)))))
+    return A, K, R
+
+
 def check_codec(sers, name, x, is_core, rec):
     ser = sers[name]
     A, K, A2, R = codec_paths(ser, x)
     pay = ("codec", name, x, is_core)
     show = lambda o: ("raises %s: %s" % (o[1], o[2])) if is_raised(o) else core.short(o, 200)
+    mA, mK, mR = codec_paths_memoryview(ser, x)
+    if not (agree(mA, A) and agree(mK, K) and agree(mR, R)):
+        rec.violation("memoryview-payload-decodes-differently:%s" % name, "%s: value %s decodes from bytes as arg=%s kw=%s result=%s but from a memoryview of the same bytes "
+                      "(a message with annotations) as arg=%s kw=%s result=%s" % (name, core.short(x, 160), show(A), show(K), show(R), show(mA), show(mK), show(mR)), pay)
+        return
+    rec.count("codec_memoryview_same")
     if is_core:
         for label, o in (("positional argument", A), ("keyword argument", K), ("second positional argument", A2), ("result", R)):
             if is_raised(o) or not gen.deep_eq(o, x):
@@ -186,6 +200,12 @@ def check_wire(fx, svc, name, x, is_core, pad, rec, seq):
     pay = ("wire", name, x, is_core, fx.servertype, P.config.COMPRESSION, pad)
     show = lambda o: ("raises %s: %s" % (o[1], o[2])) if is_raised(o) else core.short(o, 200)
     sent = [pad, x]
+    # every other case travels in messages that carry annotations (request: client context; reply: Daemon.annotations())
+    annotated = seq % 2 == 1
+    P.callcontext.current_context.annotations = {"CLNT": b"c%d" % seq} if annotated else {}
+    fx.daemon.reply_annotations = {"SRVR": b"s%d" % seq} if annotated else None
+    if annotated:
+        rec.count("wire_with_annotations")
     with fx.proxy("echo", serializer=name) as p:
         res = outcome(lambda: p.echo(key, sent, kw=sent))
         with svc.lock:
